@@ -6,7 +6,7 @@
 (* one ParseTokenParam call must report for it.  The state is the CHOICE    *)
 (* (a small tuple); text and ghost are computed from it inside Emit.        *)
 (*                                                                          *)
-(*  choice = << flags, ending, pcap, gaps, shapes >>                        *)
+(*  choice = << <<flags, ending>>, pcap, gaps, shapes >>                    *)
 (*  shape  = << name index, value kind, w0, wa, wb, wc >>   (0..3 = none SP HT fold) *)
 (*                                                                          *)
 (* Slices (Part):                                                           *)
@@ -104,36 +104,39 @@ SpOk(e, gaps, shapes) ==
   e \in {"sp", "ht"} => /\ Len(shapes) > 0 /\ gaps[Len(gaps)] = 0
                         /\ shapes[Len(shapes)][2] # VEmpty /\ TrailWs(shapes[Len(shapes)]) = 0
 
+\* choice = << <<flags, ending>>, pcap, gaps, shapes >>: flat products (TLC enumerates them lazily).
 \* NOTE: TLC evaluates zero-arity constant definitions eagerly at start-up: the slices are operators (of the kind)
 \* so that only the selected one is ever enumerated.
-Mk(gs, ss) == { <<fe[1], fe[2], pc, gs, ss>> : fe \in Combos(Kind), pc \in PCaps(Kind) }
+Fl(x) == x[1][1]   En(x) == x[1][2]   Pc(x) == x[2]   Gs(x) == x[3]   Ss(x) == x[4]
+Prod(kind, GS, SS) == Combos(kind) \X PCaps(kind) \X GS \X SS
+Tup1(S) == { <<s>> : s \in S }
 VK5 == 0..4
-
-ChoicesOne(kind) == UNION { Mk(<<0, 0>>, <<s>>) : s \in ShapesFull({1, 2}, VK5) }
-ChoicesTwo(kind) == LET S == ShapesRed({1, 2, 3}, VK5, NPat) IN UNION { Mk(<<0, 0, 0>>, ss) : ss \in S \X S }
-ChoicesThree(kind) == LET S == ShapesRed({0}, VK5, NPat) IN UNION { Mk(<<0, 0, 0, 0>>, ss) : ss \in S \X S \X S }
 G4 == 0..3
 G2 == 0..1
-S1 == ShapesRed({0}, VK5, 1)   \* 5 shapes: cheap
-ChoicesGaps(kind) == (UNION { Mk(gs, <<s>>) : gs \in G4 \X G4, s \in ShapesRed({0}, VK5, 2) })
-           \cup (UNION { Mk(gs, ss) : gs \in G4 \X G4 \X G4, ss \in S1 \X S1 })
-           \cup (UNION { Mk(gs, ss) : gs \in G2 \X G2 \X G2 \X G2, ss \in S1 \X S1 \X S1 })
-ChoicesNames(kind) == UNION { { <<fe[1], fe[2], pc, <<0, 0>>, <<s>>>> :
-                            s \in ShapesRed(1..NNames(fe[1]), {VMissing, VMarks, VQEsc}, 1), pc \in PCaps(Kind) } : fe \in Combos(kind) }
-ChoicesZero(kind) == UNION { Mk(<<g>>, <<>>) : g \in G4 }
-ChoicesSepTerm(kind) == (UNION { Mk(gs, <<s>>) : gs \in {0} \X (1..3), s \in ShapesRed({0}, VK5, 2) })
-             \cup (UNION { Mk(gs, ss) : gs \in {0} \X {0} \X (1..3), ss \in S1 \X S1 })
-ChoicesAllEmpty(kind) == UNION { Mk(<<0, 0>>, <<s>>) : s \in ShapesFull({1}, {VEmpty}) }
+S1 == ShapesRed({0}, VK5, 1)   \* 5 shapes
+S2 == ShapesRed({0}, VK5, 2)   \* 10 shapes
+
+ChoicesOne(kind)   == Prod(kind, {<<0, 0>>}, Tup1(ShapesFull({1, 2}, VK5)))
+ChoicesTwo(kind)   == LET S == ShapesRed({1, 2, 3}, VK5, NPat) IN Prod(kind, {<<0, 0, 0>>}, S \X S)
+ChoicesThree(kind) == LET S == ShapesRed({0}, VK5, NPat) IN Prod(kind, {<<0, 0, 0, 0>>}, S \X S \X S)
+ChoicesGaps(kind)  == Prod(kind, G4 \X G4, Tup1(S2))
+                 \cup Prod(kind, G4 \X G4 \X G4, S1 \X S1)
+                 \cup Prod(kind, G2 \X G2 \X G2 \X G2, S1 \X S1 \X S1)
+ChoicesNames(kind) == { x \in Prod(kind, {<<0, 0>>}, Tup1(ShapesRed(1..NUP, {VMissing, VMarks, VQEsc}, 1))) :
+                          Ss(x)[1][1] <= NNames(Fl(x)) }
+ChoicesZero(kind)  == Prod(kind, Tup1(G4), {<<>>})
+ChoicesSepTerm(kind) == Prod(kind, {0} \X (1..3), Tup1(S2)) \cup Prod(kind, {0} \X {0} \X (1..3), S1 \X S1)
+ChoicesAllEmpty(kind) == Prod(kind, {<<0, 0>>}, Tup1(ShapesFull({1}, {VEmpty})))
 
 \* an empty item directly before the terminator byte is set apart (slice septerm)
-TermAfterSep(x) == x[2] = "term" /\ x[4][Len(x[4])] > 0
+TermAfterSep(x) == En(x) = "term" /\ Gs(x)[Len(Gs(x))] > 0
 Lists == CASE Part = "one" -> ChoicesOne(Kind) [] Part = "two" -> ChoicesTwo(Kind) [] Part = "three" -> ChoicesThree(Kind)
            [] Part = "gaps" -> { x \in ChoicesGaps(Kind) : ~TermAfterSep(x) } [] Part = "names" -> ChoicesNames(Kind)
-           [] Part = "zero" -> ChoicesZero(Kind) [] Part = "septerm" -> { x \in ChoicesSepTerm(Kind) : x[2] = "term" }
+           [] Part = "zero" -> ChoicesZero(Kind) [] Part = "septerm" -> { x \in ChoicesSepTerm(Kind) : En(x) = "term" }
            [] Part = "allempty" -> ChoicesAllEmpty(Kind)
 Choices == CASE Part = "sweep" -> {"up", "uh", "pl"} \X {"name", "val", "vend", "qend"} \X (0..255)
              [] Part = "resolve" -> 1..(NUP + 3)
-             [] OTHER -> { x \in Lists : SpOk(x[2], x[4], x[5]) }
+             [] OTHER -> { x \in Lists : SpOk(En(x), Gs(x), Ss(x)) }
 
 Init == c \in Choices
 Next == FALSE /\ UNCHANGED c
@@ -141,8 +144,8 @@ Spec == Init /\ [][Next]_c
 
 \* ---- the list of a choice ----
 ListOf(x) ==
-  LET mode == ModeOf(x[1])  n == Len(x[5])
-      L == GenList(SepOf(x[1]), SubSeq([k \in 1..n |-> MkItem(mode, x[5][k], k)], 1, n), x[4], EndingOf(x[1], x[2]))
+  LET mode == ModeOf(Fl(x))  n == Len(Ss(x))
+      L == GenList(SepOf(Fl(x)), SubSeq([k \in 1..n |-> MkItem(mode, Ss(x)[k], k)], 1, n), Gs(x), EndingOf(Fl(x), En(x)))
   IN IF Part = "allempty" THEN [L EXCEPT !.ps = SubSeq([k \in 1..n |-> [L.ps[k] EXCEPT !.allDet = TRUE]], 1, n)] ELSE L
 
 \* ---- oracle records ----
@@ -236,7 +239,7 @@ EmitResolve == LET nm == ResName(c) IN
 
 EmitList == LET L == ListOf(c) IN
   /\ GhostSane(L)
-  /\ P(IF Kind = "tokparam" THEN FirstRec(c[1], L) ELSE ListRec(Kind, c[1], c[3], L))
+  /\ P(IF Kind = "tokparam" THEN FirstRec(Fl(c), L) ELSE ListRec(Kind, Fl(c), Pc(c), L))
 
 Emit == CASE Part = "sweep" -> EmitSweep [] Part = "resolve" -> EmitResolve [] OTHER -> EmitList
 =============================================================================
